@@ -150,6 +150,7 @@ def r14_3(run):
     fx = facts(run)
     # ---- Operation.backward
     fi = anchor_func(run, OP_BACKWARD)
+    _HELPER_RESOLVER["f"] = lambda call: (lambda r: r if hasattr(r, "node") and hasattr(r, "qualname") else None)(fx.resolve_call(fi, call))
     cfg = build_cfg(run, fi, {"NP_IS_V2": True})
     loops = [n for n in own_nodes(fi.node) if isinstance(n, ast.For) and "self.variables" in norm(n.iter)]
     var = [x.id for x in ast.walk(loops[0].target) if isinstance(x, ast.Name)][-1]
@@ -292,16 +293,28 @@ def _redefined_between(cfg, name, a, b) -> bool:
             if not cfg.dominates(a, n):
                 continue
             v = getattr(s, "value", None)
-            if not _shape_preserving(v, name):
+            if not _shape_preserving(v, name, cfg=cfg):
                 return True
     return False
 
 
-def _shape_preserving(v, name) -> bool:
+_HELPER_RESOLVER = {}
+
+
+def _shape_preserving(v, name, cfg=None, depth=0) -> bool:
     if v is None:
         return False
     if isinstance(v, ast.IfExp):
-        return _shape_preserving(v.body, name) and _shape_preserving(v.orelse, name)
+        return _shape_preserving(v.body, name, cfg, depth) and _shape_preserving(v.orelse, name, cfg, depth)
+    # a repo helper whose every return is a shape-preserving function of the parameter that receives `name`
+    if isinstance(v, ast.Call) and isinstance(v.func, ast.Name) and depth < 2 and _HELPER_RESOLVER.get("f") is not None:
+        r = _HELPER_RESOLVER["f"](v)
+        if r is not None and hasattr(r, "node"):
+            params = [a.arg for a in r.node.args.args]
+            for i, a in enumerate(v.args):
+                if norm(a) == name and i < len(params):
+                    rets = [x for x in own_nodes(r.node) if isinstance(x, ast.Return)]
+                    return bool(rets) and all(_shape_preserving(x.value, params[i], cfg, depth + 1) for x in rets)
     if isinstance(v, ast.Name):
         return v.id == name
     if isinstance(v, ast.Call):
